@@ -431,6 +431,11 @@ def writeSpecial (s : Option (List Nat)) (b : WBuf) : Res Out :=
     let b ← b.blit 0 s
     .ok ⟨b, s.length⟩
 
+/-- the caller's `&mut bytes[..count]` -/
+def finalCheck : Outcome → Outcome
+  | .done w => if w.len ≤ w.bytes.length then .done w else .panic
+  | x => x
+
 /-- `WriteFloat::write_float::<FORMAT>(self, bytes, options)`; `digits` = what the decimal digit generator
 (Dragonbox / Grisu) returns for `|self|`: significant digit values and scientific exponent (`([0], 0)` for zero).
 The caller's `&mut bytes[..count]` is the final `len ≤ bytes.length` check. -/
@@ -455,8 +460,6 @@ def writeFloat (feats : Features) (f : Fmt) (fmt : Format) (o : WOpts) (debug : 
           | be => .other be sign.length
         else if f.isNaN bits then onTail sign rest (writeSpecial o.nan)
         else onTail sign rest (writeSpecial o.inf)
-      match out with
-      | .done w => if w.len ≤ w.bytes.length then .done w else .panic
-      | x => x
+      finalCheck out
 
 end LexVerif.Model.WriteFloat
